@@ -19,7 +19,7 @@
    carrier (C11_anyOf_accepts) and rejects the documents no branch accepts (C11_anyOf_rejects).  The second
    condition of C11_anyOf_accepts is where the implementation is stricter than the disjunction (a key that one branch
    leaves open and another branch types is decoded with that type): recorded finding, decided on the implementation. *)
-From GJS Require Import Base Schema Merge GoType Ident Gen Exec Valid ExecP GenP MergeP AnyOfP.
+From GJS Require Import Base Schema Merge GoType Ident Gen Exec Valid ExecP GenP LevelP NestedP MergeP AnyOfP CompositeP.
 
 Theorem C11_allOf_merge : forall fmt_ok defs bs m f j,
   forallb prim_or_untyped bs = false -> compat_all empty_schema bs = true ->
@@ -72,6 +72,31 @@ Theorem C11_refuted_primitive_branches :
     forallb (fun b => valid (fun _ _ => true) [] 3 b (JStr [97; 98; 99]%N)) [prim_branch] = false.
 Proof. exact merge_primitive_refuted. Qed.
 Print Assumptions C11_refuted_primitive_branches.
+
+(* end to end: generator, merge and decoder composed - the struct generated for an allOf node accepts a JSON object iff every resolved member
+   is valid, for compatible members whose merge is a scalar object of nesting depth n (shared properties deep-merged) *)
+Theorem C11_allOf_objects_exact : forall idf cf defs fmt_ok env sdefs,
+  g_minsized cf = false -> g_only_models cf = false ->
+  forall n a b0 c0 self sub c props addl af items b bs scope t bb kv rs m,
+  c_enum c = None -> c_ref c = None -> scope <> [] ->
+  resolve_branches defs (b :: bs) = Done rs -> merge_types rs = Some m ->
+  all_of_schema defs (b :: bs) = Done m ->
+  forallb prim_or_untyped rs = false -> compat_all empty_schema rs = true ->
+  sobj idf cf defs env sdefs n m -> dok idf cf defs env sdefs n m kv ->
+  gen idf cf defs (S (S (fuelG n a))) MInline self sub (Sch c props addl af items (b :: bs) []) scope = Done (t, bb) ->
+  is_ok (dec fmt_ok env (fuelD n b0) t (JObj kv)) = forallb (fun r => valid fmt_ok sdefs (fuelV n c0) r (JObj kv)) rs.
+Proof. exact allof_objects_exact. Qed.
+Print Assumptions C11_allOf_objects_exact.
+
+(* instance: allOf of {a: string minLength 2 (required), s: string maxLength 4} and {b: string (required), s: minLength 2}: a document that
+   satisfies both, one whose s is too short for the second member, one without b *)
+Theorem C11_allOf_exact_inhabited :
+  exists t b, gen (fun s => s) (mkCfg false false) [] (S (S (fuelG 0 1))) MInline None false co_node [84]%N = Done (t, b) /\
+    (forall kv, In kv [co_ok; co_short; co_missing] ->
+       is_ok (dec (fun _ _ => true) [] (fuelD 0 0) t (JObj kv)) = forallb (fun r => valid (fun _ _ => true) [] (fuelV 0 0) r (JObj kv)) [co_m1; co_m2]) /\
+    map (fun kv => forallb (fun r => valid (fun _ _ => true) [] (fuelV 0 0) r (JObj kv)) [co_m1; co_m2]) [co_ok; co_short; co_missing] = [true; false; false].
+Proof. exact allof_exact_inhabited. Qed.
+Print Assumptions C11_allOf_exact_inhabited.
 
 Theorem C11_anyOf_validator : forall decf raw j branches,
   (forall bt, In bt branches -> decf bt j <> Crash /\ decf bt j <> NoFuel) ->
